@@ -92,13 +92,16 @@ func smallID(m map[uintptr]int, p uintptr) int {
 
 // ---- objects the environment creates ----
 
-func (b *B) newReq(method, path, query, tok string) *http.Request {
+func (b *B) newReq(method, path, query, tok string, host ...string) *http.Request {
 	target := path
 	if query != "" {
 		target += "?" + query
 	}
 	r := httptest.NewRequest(method, target, nil)
 	r.Host = "h-" + tok + ".test"
+	if len(host) > 0 && host[0] != "" {
+		r.Host = host[0]
+	}
 	r.RemoteAddr = "192.0.2.1:" + fmt.Sprint(1000+b.tokN)
 	r.Header.Set("X-Tok", tok)
 	rv := &ReqVal{Method: method, Host: r.Host, Path: r.URL.Path, Query: valuesKV(r.URL.Query()), Hdr: valuesKV(r.Header), Remote: r.RemoteAddr}
